@@ -328,6 +328,7 @@ func runC02(c *Ctx) {
 		"C02.c ST suppression: ESC \\ is suppressed iff the ESC ended a string state; an ESC \\ after BEL/CAN/SUB/timeout is delivered",
 		"C02.d ignore states deliver nothing (part of the table)",
 		"C02.e action bodies: collect/param/put/oscPut append the byte to their buffer; clear resets intermediates, params and final; execute emits C0",
+		"C02.f a slice stored into a delivered sequence is replaced by fresh storage before the parser continues (payloads are never altered after delivery)",
 	}
 	c.NotDec = []string{"numeric decoding of parameters (csiDispatch/hook arithmetic)", "grapheme clustering and width in print", "invalid UTF-8 fallback in readRune", "independence from read chunking"}
 	c.expect("C02.a", 1500)
@@ -710,6 +711,9 @@ func runC02(c *Ctx) {
 		}
 	}
 	c02ActionBodies(c, decls, info, ptr)
+	// delivered payloads/intermediates are never modified by later parsing (shared with C08.b)
+	parserOwnership(c, "C02.f")
+	c.expect("C02.f", 5)
 }
 
 func sortedKeys(m map[string]bool) []string {
